@@ -69,12 +69,16 @@ func TestVerifC27(t *testing.T) {
 		{PathName: "cam", Video: true, GOP: 1, FPS: 10, Frames: 35, SegmentDuration: 2 * time.Second, PartDuration: 500 * time.Millisecond, PayloadSize: 300},
 		{PathName: "cam", Video: true, Audio: true, GOP: 12, FPS: 30, Frames: 100, SegmentDuration: time.Second, PartDuration: 150 * time.Millisecond},
 		{PathName: "cam", Video: true, GOP: 3, FPS: 25, Frames: 12, SegmentDuration: 10 * time.Second, PartDuration: 100 * time.Millisecond}, // a single segment
+		{PathName: "cam", Video: true, Audio: true, GOP: 5, FPS: 25, Frames: 80, SegmentDuration: time.Second, PartDuration: 200 * time.Millisecond, AudioLag: 700 * time.Millisecond},
+		{PathName: "cam", Video: true, Audio: true, GOP: 5, FPS: 25, Frames: 80, SegmentDuration: time.Second, PartDuration: 200 * time.Millisecond, BasePTS: 30 * time.Hour},
+		{PathName: "cam", Video: true, GOP: 4, FPS: 20, Frames: 70, SegmentDuration: time.Second, PartDuration: 100 * time.Millisecond, BasePTS: 40 * time.Hour},
 	}
 	nSpecs := r.N(2, len(specs))
 	cutsPerSpec := r.N(160, 1<<30)
 	images := 0
-	for si := 0; si < nSpecs; si++ {
+	for si := 0; si < len(specs); si++ {
 		spec := specs[(si+int(r.Seed())-1)%len(specs)]
+		imagesToo := si < nSpecs // every recording is checked as closed; crash images are enumerated for the first ones
 		spec.StartNTP = start
 		spec.SnapshotOpen = true
 		os.RemoveAll(filepath.Join(dir, "rec")) //nolint:errcheck
@@ -133,6 +137,9 @@ func TestVerifC27(t *testing.T) {
 			if len(es) != 1 {
 				r.Violation("continuous-segments-not-merged", fmt.Sprintf("%d consecutive segments of one session are listed as %d spans", len(segs), len(es)), map[string]any{"list": string(body)})
 			}
+		}
+		if !imagesToo {
+			continue
 		}
 		// ---- crash images of the newest segment
 		last := rec.Segments[len(rec.Segments)-1]
